@@ -199,3 +199,10 @@ Theorem C01_source_random_iteration_in_box : forall sp cons rrp_m rrp_e body fue
   nan_free (cg_tape self) -> g_core_random_iteration sp cons rrp_m rrp_e body fuel self = Ok (s', p) -> in_box sp p.
 Proof. intros sp cons rm re body fuel self s' p Hb Hn H. destruct (source_random_iteration_ok sp cons rm re body fuel self s' p Hb Hn H) as [[A _] _]. exact A. Qed.
 Print Assumptions C01_source_random_iteration_in_box.
+
+Require Import ConvGen ConvTie.
+(* genuine decoding for the position2value GENERATED from converter.py: it is the model's function, so C01_in_box_decodes_genuinely is about
+   what the source says now *)
+Theorem C01_source_position2value_equals_model : forall sp p, g_Converter_position2value sp p = position2value sp p.
+Proof. exact position2value_tie. Qed.
+Print Assumptions C01_source_position2value_equals_model.
